@@ -133,3 +133,37 @@ def empty_optional_of_omitted():
     s['l'].clear()
     out = encoder.encode(s)
     return out != bytes.fromhex('30050201013000'), 'der.encode(SEQUENCE {a 1, l {} }) = %s, DER is 30050201013000' % out.hex()
+
+
+def item_encoder_modes(fixedDef, fixedChunk, options):
+    """run the real SingleItemEncoder.__call__ of a subclass with the given fixed modes over a recording stub codec:
+    the codec must see the fixed modes, not the caller's."""
+    from pyasn1.codec.ber import encoder
+
+    seen = {}
+
+    class Codec(object):
+        def encode(self, value, asn1Spec, encodeFun, **opts):
+            seen.update(opts)
+            return b'\x05\x00'
+
+    class E(encoder.SingleItemEncoder):
+        fixedDefLengthMode = fixedDef
+        fixedChunkSize = fixedChunk
+
+    class V(object):
+        typeId = 424242
+    e = E(typeMap={424242: Codec()})
+    e(V(), **options)
+    bad = []
+    if fixedDef is not None and seen.get('defMode', 'absent') is not fixedDef:
+        bad.append('defMode seen by the codec is %r, class fixes %r' % (seen.get('defMode', 'absent'), fixedDef))
+    if fixedChunk is not None and seen.get('maxChunkSize', 'absent') != fixedChunk:
+        bad.append('maxChunkSize seen by the codec is %r, class fixes %r' % (seen.get('maxChunkSize', 'absent'), fixedChunk))
+    if fixedDef is None and seen.get('defMode', 'absent') != options.get('defMode', 'absent'):
+        bad.append('caller defMode %r replaced by %r' % (options.get('defMode', 'absent'), seen.get('defMode', 'absent')))
+    if fixedChunk is None and seen.get('maxChunkSize', 'absent') != options.get('maxChunkSize', 'absent'):
+        bad.append('caller maxChunkSize %r replaced by %r' % (options.get('maxChunkSize', 'absent'),
+                                                              seen.get('maxChunkSize', 'absent')))
+    return bool(bad), 'SingleItemEncoder(fixedDefLengthMode=%r, fixedChunkSize=%r)(value, **%r): %s' % (
+        fixedDef, fixedChunk, options, '; '.join(bad) or 'codec saw %r' % seen)
